@@ -320,6 +320,32 @@ def rule_forwarders(rep, prog, eff):
             cs = [c for c in b.calls() if canon(c.target or "").endswith("Bitmap::" + b.name)]
             ok = len(cs) == 1
             detail = "no forwarding call"
+            if not cs:
+                # the same forward written with a combinator: self.as_ref().map(|inner| inner.m(args)) / is_some_and(..): the closure is
+                # applied to the payload of self (and not at all for None), its other operands are the method's own arguments
+                for cb in prog.closures_of(b):
+                    ccs = [c for c in cb.calls() if canon(c.target or "").endswith("Bitmap::" + b.name)]
+                    if len(ccs) != 1:
+                        continue
+                    user = [c for c in b.calls() if canon(c.target or "").split("::")[-1] in ("map", "is_some_and", "map_or", "and_then") and
+                            "Option" in canon(c.target or "") and any(deep_strip(x)[0] == 'agg' and str(deep_strip(x)[1]) == cb.id for x in c.args())]
+                    if len(user) != 1:
+                        continue
+                    recv = deep_strip(user[0].args()[0])
+                    while recv[0] == 'call' and canon(recv[1]).split("::")[-1] in ("as_ref", "as_mut", "as_deref") and recv[2]:
+                        recv = deep_strip(recv[2][0])
+                    a = [deep_strip(x) for x in ccs[0].args()]
+                    lifted = [deep_strip(eff.in_parent(cb, x)[1]) for x in a[1:]]
+                    ok = recv[:2] == ('param', 1) and effects.base_of(a[0])[:2] == ('param', 2) and \
+                        all(x[0] == 'param' and x[1] == i + 2 for i, x in enumerate(lifted))
+                    if canon(user[0].target or "").split("::")[-1] == "map_or":
+                        ok = ok and b.name == "dirty_at" and deep_strip(user[0].args()[1]) == ('const', 0)
+                    detail = f"forwards through Option::{canon(user[0].target or '').split('::')[-1]}: inner.{b.name}({', '.join(tstr(x) for x in lifted)})"
+                    rep("R5.3.option", b.key, ok, b.where(), detail + "; required Some(inner) => inner.<same method>(same arguments)")
+                    break
+                else:
+                    rep("R5.3.option", b.key, False, b.where(), detail + "; required Some(inner) => inner.<same method>(same arguments)")
+                continue
             if ok:
                 a = [deep_strip(x) for x in cs[0].args()]
                 ok = a[0][0] in ('ok', 'ref') and all(x[0] == 'param' and x[1] == i + 2 for i, x in enumerate(a[1:]))
